@@ -231,14 +231,21 @@ func (c *Ctx) sitesDepth(fn *ssa.Function, depth int, onStack map[*ssa.Function]
 		if !ws.isFmt && !ws.konst && ws.method == "WriteString" {
 			if call, ok := ws.arg.(*ssa.Call); ok && callee(call) != nil && c.W.InRepo(callee(call)) {
 				alts := c.stringAlts(fn, ws.arg, 0)
-				if len(alts) > 1 || (len(alts) == 1 && alts[0].konst) {
+				if len(alts) > 1 || (len(alts) == 1 && (alts[0].konst || alts[0].isTmpl)) {
 					for k, a := range alts {
 						ns := ws
 						ns.alt = k + 1
 						ns.cond = andDNF(ws.cond, a.cond)
-						if a.konst {
+						switch {
+						case a.konst:
 							ns.konst, ns.format = true, a.text
-						} else {
+						case a.isTmpl:
+							ns.isFmt, ns.format = true, a.format
+							ns.argT = append([]string{}, a.argT...)
+							ns.origT = append([]string{}, a.argT...)
+							ns.args = nil
+							foldConstOperands(&ns)
+						default:
 							ns.argT = []string{a.term}
 						}
 						out = append(out, ns)
@@ -467,6 +474,29 @@ func (c *Ctx) siteDuties(fns []*ssa.Function, relevant func(ws writeSite) bool, 
 				}
 			}
 			d.transferred = n > 0
+		} else if it.ws.method == "Return" && it.ws.depth == 0 {
+			// a text produced by a builder-less helper: each caller that writes the result
+			// directly sees the alternatives as its own sites (stringAlts) and is judged there
+			calls := c.W.callsTo(it.fn)
+			all := len(calls) > 0
+			for _, call := range calls {
+				v, isV := call.(ssa.Value)
+				written := false
+				if isV && v.Referrers() != nil && len(*v.Referrers()) > 0 {
+					written = true
+					for _, r := range *v.Referrers() {
+						ci, isCall := r.(ssa.CallInstruction)
+						if _, dbg := r.(*ssa.DebugRef); dbg {
+							continue
+						}
+						if !isCall || calleeName(ci) != "(*strings.Builder).WriteString" || len(ci.Common().Args) < 2 || ci.Common().Args[1] != v {
+							written = false
+						}
+					}
+				}
+				all = all && written
+			}
+			d.transferred = all
 		}
 		out = append(out, d)
 	}
@@ -726,6 +756,10 @@ type strAlt struct {
 	text  string // constant text
 	term  string // term (in the namespace of the analysed function) when not constant
 	cond  dnf    // additional condition under which this alternative is the value
+	// a text built from a template (Sprintf / concatenation with at least one constant piece)
+	isTmpl bool
+	format string
+	argT   []string
 }
 
 // stringAlts lists the alternatives of a string value: a constant; a merge of alternatives
@@ -791,6 +825,13 @@ func (c *Ctx) stringAlts(fn *ssa.Function, v ssa.Value, depth int) []strAlt {
 								if !a.konst {
 									a.term = c.substParams(fn, x, a.term)
 								}
+								if a.isTmpl {
+									var at []string
+									for _, t := range a.argT {
+										at = append(at, c.substParams(fn, x, t))
+									}
+									a.argT = at
+								}
 								out = append(out, a)
 							}
 						}
@@ -801,6 +842,13 @@ func (c *Ctx) stringAlts(fn *ssa.Function, v ssa.Value, depth int) []strAlt {
 				}
 			}
 		}
+	}
+	if f, ops, ok := flatTemplate(v, 0); ok {
+		a := strAlt{term: c.term(fn, v), cond: truth, isTmpl: true, format: f}
+		for _, o := range ops {
+			a.argT = append(a.argT, c.term(fn, o))
+		}
+		return []strAlt{a}
 	}
 	return []strAlt{{term: c.term(fn, v), cond: truth}}
 }
